@@ -994,6 +994,29 @@ def check_ds_copy(ctx):
 
 # ------------------------------------------------------------------ C09 ---
 
+def edge_slice_function(program):
+    '''The function deriving the slice of the EDGES from the slice of the
+    cells: `_get_bins_slice` of the shipped code, or - after a refactoring -
+    the function of dataset.py with one parameter whose every return is
+    `slice(<..>, <..>, <parameter>.step)`.'''
+    klass = dataset_class(program)
+    meth = klass.methods.get('_get_bins_slice')
+    if meth is not None:
+        return meth
+    cands = []
+    for func in klass.module.functions.values():
+        pars = [p for p in func.params if p not in ('self', 'cls')]
+        if len(pars) != 1:
+            continue
+        rets = [n for n in walk_local(func.node)
+                if isinstance(n, ast.Return) and n.value is not None]
+        if rets and all(isinstance(r.value, ast.Call) and call_name(
+                r.value) == 'slice' and len(r.value.args) == 3 and txt(
+                    r.value.args[2]) == f'{pars[0]}.step' for r in rets):
+            cands.append(func)
+    return cands[0] if len(cands) == 1 else None
+
+
 def check_slice_apply(ctx):
     klass = dataset_class(ctx.program)
     meth = klass.methods.get('__getitem__')
@@ -1011,8 +1034,23 @@ def check_slice_apply(ctx):
             'self.value' and txt(val.slice) == idx
         ok_e = isinstance(err, ast.Subscript) and txt(err.value) == \
             'self.error' and txt(err.slice) == idx
+        # the index itself, or its normal form as a tuple of slices
+        # (`slices = (index,) if isinstance(index, slice) else index`)
+        same = {idx}
+        for _ in range(3):
+            for nam, vals in defs.items():
+                if nam not in same and vals and all(
+                        txt(v) in same or (isinstance(v, ast.Tuple) and len(
+                            v.elts) == 1 and txt(v.elts[0]) in same) or (
+                                isinstance(v, ast.IfExp) and all(
+                                    txt(b) in same or (isinstance(
+                                        b, ast.Tuple) and len(b.elts) == 1
+                                        and txt(b.elts[0]) in same)
+                                    for b in (v.body, v.orelse)))
+                        for v in vals):
+                    same.add(nam)
         ok_b = isinstance(bins, ast.Call) and any(
-            txt(a) == idx for a in bins.args) and dotted(
+            txt(a) in same for a in bins.args) and dotted(
                 receiver(bins)) == 'self'
         ctx.decide('SLICE-APPLY', meth, f'value={txt(val)}, error='
                    f'{txt(err)}, bins={txt(bins)[:40]}',
@@ -1294,7 +1332,7 @@ def check_slice_sign(ctx):
     '''Decision table of the cell-slice -> edge-slice adjustment over
     sign(start) x sign(stop).'''
     klass = dataset_class(ctx.program)
-    meth = klass.methods.get('_get_bins_slice')
+    meth = edge_slice_function(ctx.program)
     if meth is None:
         # the adjustment may have been inlined elsewhere
         raise AnalysisError('Dataset._get_bins_slice not found')
@@ -1461,6 +1499,8 @@ def check_edge_kind(ctx):
     constructor selects the wrong slice of the new bins."""
     klass = dataset_class(ctx.program)
     n = 0
+    edge_fn = edge_slice_function(ctx.program)
+    edge_name = edge_fn.name if edge_fn is not None else '_get_bins_slice'
     for meth in klass.methods.values():
         loops = {}
         for node in ast.walk(meth.node):
@@ -1471,6 +1511,12 @@ def check_edge_kind(ctx):
                 for elt, src in zip(node.target.elts, node.iter.args):
                     if isinstance(elt, ast.Name):
                         loops[elt.id] = src
+                    elif isinstance(elt, ast.Tuple) and isinstance(
+                            src, ast.Call) and call_name(src) == 'items':
+                        # (key, coords) in self.bins.items()
+                        for sub in elt.elts:
+                            if isinstance(sub, ast.Name):
+                                loops[sub.id] = src
         for node in walk_local(meth.node):
             if isinstance(node, ast.IfExp):
                 branches = [node.body, node.orelse]
@@ -1479,8 +1525,8 @@ def check_edge_kind(ctx):
                             ast.Module(body=node.orelse, type_ignores=[])]
             else:
                 continue
-            uses = ['_get_bins_slice' in txt(b) if not isinstance(
-                b, ast.Module) else any('_get_bins_slice' in txt(s_)
+            uses = [edge_name in txt(b) if not isinstance(
+                b, ast.Module) else any(edge_name in txt(s_)
                                         for s_ in b.body) for b in branches]
             if sorted(uses) != [False, True]:
                 continue
@@ -1489,8 +1535,11 @@ def check_edge_kind(ctx):
             construct = f'{meth.name}: edges / centres selected by ' \
                         f'`{txt(test)[:50]}`'
             lens = [c for c in ast.walk(test) if isinstance(c, ast.Call) and
-                    call_name(c) == 'len' and c.args and
-                    'bins' in txt(c.args[0])]
+                    call_name(c) == 'len' and c.args and (
+                        'bins' in txt(c.args[0]) or (
+                            isinstance(c.args[0], ast.Name) and
+                            c.args[0].id in loops and
+                            'self.bins' in txt(loops[c.args[0].id])))]
             srcs = {name: txt(loops[name]) for name in
                     {x.id for x in ast.walk(test) if isinstance(x, ast.Name)}
                     if name in loops}
